@@ -15,11 +15,9 @@ import (
 	"net/http/httptest"
 	"os"
 	"path/filepath"
-	"reflect"
 	"strconv"
 	"strings"
 	"syscall"
-	"unsafe"
 
 	"Havoc/cmd/server"
 	"Havoc/pkg/agent"
@@ -86,21 +84,8 @@ func SweepStale(tag string) {
 	}
 }
 
-// CloseDB closes the *sql.DB inside a Havoc db.DB (it has no Close of its own; without
-// this every case would leak file descriptors).
-func CloseDB(d *db.DB) {
-	if d == nil {
-		return
-	}
-	f := reflect.ValueOf(d).Elem().FieldByName("db")
-	if !f.IsValid() {
-		return
-	}
-	p := (**sql.DB)(unsafe.Pointer(f.UnsafeAddr()))
-	if *p != nil {
-		(*p).Close()
-	}
-}
+// CloseDB closes the sqlite handle inside a Havoc db.DB (shared helper tsx.CloseDB).
+func CloseDB(d *db.DB) { tsx.CloseDB(d) }
 
 // ------------------------------------------------------------------ world
 
@@ -160,7 +145,7 @@ func (w *World) Close() {
 	if w.SQL != nil {
 		w.SQL.Close()
 	}
-	CloseDB(w.TS.DB)
+	tsx.CloseTS(w.TS)
 	if w.own {
 		os.RemoveAll(w.Dir)
 	}
